@@ -102,9 +102,12 @@ def delivered_ok(c, st, Pset):
 
 
 def no_cancel(c, st):
+    """no task of this activation has been asked to cancel, hence none is cancelled"""
     CR = created(c, st)
     t = q()
-    return ForAll([t], Implies(Select(CR, t), Not(st.f('$cancel_req', t))), patterns=[Select(CR, t)])
+    return ForAll([t], Implies(Select(CR, t), And(Not(st.f('$cancel_req', t)),
+                                                  Or(tstate(st, t) == S_PENDING, tstate(st, t) == S_FINISHED))),
+                  patterns=[Select(CR, t)])
 
 
 def own_fields(c, st):
@@ -124,6 +127,7 @@ def window_ok(c, st):
     S = c.a.self
     w = c.pre.f('jobs_window', S)
     return And(isa['Window'](win), Not(c.pre.alive(win)), st.alive(win), isa['Queue'](st.f('queue', win)),
+               st.alive(st.f('queue', win)),
                st.f('$qmax', st.f('queue', win)) == If(w == NONE, 0, z3.ToInt(L.numval(w))))
 
 
@@ -188,7 +192,7 @@ def _l0(c):
                        st.env['nb_jobs_forever'].t == card(Jp) - card(finite_members(c)))),
         ('one-task-per-visited-entry-job', And(st.llen(pend) == idx, ForAll([i], Implies(
             And(0 <= i, i < idx), And(at(i) == st.f('_task', ent(i)), at(i) != NONE, Select(CR, at(i)))),
-            patterns=[at(i)]))),
+            patterns=[at(i), ent(i)]))),
         ('tasks-distinct', ForAll([i, k], Implies(And(0 <= i, i < k, k < idx), at(i) != at(k)),
                                   patterns=[z3.MultiPattern(at(i), at(k))])),
         ('created-are-exactly-the-list', ForAll([t], Select(CR, t) == Select(PL, t),
@@ -258,7 +262,25 @@ def _main_hints(h, e):
     return [L.K8(A, Bf, f, g)] + L.card_facts(A) + L.card_facts(Bf)
 
 
-c.loop(1, inv=_cl(_main, _MAIN, 'main'), hints=_main_hints, var_kinds={'pending': 'set'})
+def _main_est_hints(c):
+    """after the entry loop: every member that requires nothing has its task"""
+    st = c.cur
+    j, r = q(2)
+    return [L.Lemma('all-entry-jobs-started', ForAll([j], Implies(
+        And(Select(Jset(c), j), Not(Exists([r], E(c.pre, j, r)))), st.f('_task', j) != NONE),
+        patterns=[st.f('_task', j)]))]
+
+
+c.loop(1, inv=_cl(_main, _MAIN, 'main'), hints=_main_hints, var_kinds={'pending': 'set'},
+       est_hints=_main_est_hints, forget=True)
+
+
+def _corun_post_hints(c):
+    c.use_schema('acyclic', Jset(c))
+    return []
+
+
+c.post_hints = _corun_post_hints
 
 
 # ---------------------------------------------------------------- loop 2: is there a critical failure in the batch
